@@ -61,8 +61,13 @@ Example C16_ex_run :
   /\ match orient_atoms QK (fun _ => ((10, 20, 26)%Q, ex_V)) ex_moved with
      | Ok r => rows_close 0 (map fst r) [(0, 0, 1); (0, 0, -1); (0, 2, 0); (0, -2, 0); (3, 0, 0); (-3, 0, 0)]%Q
      | Err _ => false
+     end = true
+  (* the unmoved molecule (eigenvectors [e_z e_y e_x]) is oriented to the very same coordinates *)
+  /\ match orient_atoms QK (fun _ => ((10, 20, 26)%Q, ((0, 0, 1), (0, 1, 0), (1, 0, 0))%Q)) ex_base with
+     | Ok r => rows_close 0 (map fst r) [(0, 0, 1); (0, 0, -1); (0, 2, 0); (0, -2, 0); (3, 0, 0); (-3, 0, 0)]%Q
+     | Err _ => false
      end = true.
-Proof. split; vm_compute; reflexivity. Qed.
+Proof. repeat split; vm_compute; reflexivity. Qed.
 
 (** * Part B: real numbers *)
 Local Open Scope R_scope.
